@@ -254,12 +254,25 @@ def _new_root():
 class Scratch:
     """A private directory with a given tree; removed on exit."""
 
-    def __init__(self, tree=None):
+    _in_use = set()
+
+    def __init__(self, tree=None, fixed=None):
+        """fixed: a name; the directory then has the same path every time this process uses it (emptied first), so that state
+        which pdpy11 might keep per file path between assemblies meets the next case's files.  Falls back to a unique directory
+        while the fixed one is in use."""
         self.tree = tree or {}
         self.path = None
+        self.fixed = fixed
 
     def __enter__(self):
-        self.path = tempfile.mkdtemp(prefix="c-", dir=scratch_root())
+        if self.fixed and self.fixed not in Scratch._in_use:
+            Scratch._in_use.add(self.fixed)
+            self.path = os.path.join(scratch_root(), "c-" + self.fixed)
+            shutil.rmtree(self.path, ignore_errors=True)
+            os.makedirs(self.path)
+        else:
+            self.fixed = None
+            self.path = tempfile.mkdtemp(prefix="c-", dir=scratch_root())
         for rel, content in self.tree.items():
             full = os.path.join(self.path, rel)
             os.makedirs(os.path.dirname(full), exist_ok=True)
@@ -273,6 +286,8 @@ class Scratch:
 
     def __exit__(self, *a):
         shutil.rmtree(self.path, ignore_errors=True)
+        if self.fixed:
+            Scratch._in_use.discard(self.fixed)
 
     def snapshot(self):
         snap = {}
@@ -298,7 +313,7 @@ class Scratch:
 
 def assemble_tree(tree, mains, charset="bk", **kw):
     """Write `tree` (rel path -> text/bytes) to a scratch dir and assemble files `mains`."""
-    with Scratch(tree) as sc:
+    with Scratch(tree, fixed="tree") as sc:
         files = [(os.path.join(sc.path, m), tree[m]) for m in mains]
         out = assemble(files, charset=charset, **kw)
         out_root = sc.path
